@@ -28,6 +28,7 @@ func c15(c *Ctx) {
 	c15R6(c)
 	verifyCommitRule(c, "R7")
 	valsetCacheRule(c, "R8")
+	c15R9(c)
 }
 
 const gbi = "gemmill/types.(*ValidatorSet).GetByIndex(a0.valSet,a1.ValidatorIndex)"
@@ -268,5 +269,39 @@ func verifyCommitRule(c *Ctx, id string) {
 	}
 	if n != 1 {
 		c.R.Undecided(rule, "tally:site", c.P.Pos(f.F.Pos()), fname(f), fmt.Sprintf("expected one tally addition, found %d", n))
+	}
+}
+
+// c15R9: a per-block tally, once created, is never replaced; and every round up to the current one has vote sets.
+func c15R9(c *Ctx) {
+	rule := c.R.Rule("R9", "tallies are never replaced: every insertion into VoteSet.votesByBlock is edge-dominated by a failed lookup of the same key (an existing entry — with the votes already counted for that block — is kept); HeightVoteSet.SetRound creates the vote sets of every round in (hvs.round, round], skipping only rounds that already exist", 4)
+	n := 0
+	for _, fn := range c.P.FuncsOfPkg("gemmill/types") {
+		if fn.Blocks == nil || !strings.Contains(core.FuncName(fn), "(*VoteSet).") {
+			continue
+		}
+		f := c.Fn(fn)
+		for _, b := range fn.Blocks {
+			for _, ins := range b.Instrs {
+				mu, ok := ins.(*ssa.MapUpdate)
+				if !ok || !f.Live(ins) || exprOf(mu.Map) != "a0.votesByBlock" {
+					continue
+				}
+				n++
+				want := "!a0.votesByBlock[" + exprOf(mu.Key) + "]#1"
+				c.R.Ob(rule, "votesByBlock-insert:"+fn.Name()+"⊣entry-absent", f.HasGuard(ins, eqs(want)), c.Pos(ins), core.FuncName(fn),
+					"an existing blockVotes entry must not be overwritten: the votes counted so far for that block would stop counting and could not be re-added (duplicates); "+shorten(guardsText(f, ins)))
+			}
+		}
+	}
+	c.R.Ob(rule, "votesByBlock-insert-sites", n >= 2, "-", "", fmt.Sprintf("%d", n))
+	if f := c.Anchor(rule, "gemmill/consensus/pbft.(*HeightVoteSet).SetRound"); f != nil {
+		loopVar := "phi((a0.round + 1)|(loop + 1))"
+		cs := f.CallsTo(cfgx.Named("gemmill/consensus/pbft.(*HeightVoteSet).addRound"))
+		ok := len(cs) == 1
+		for _, ci := range cs {
+			ok = ok && callArg(ci, 1) == loopVar && f.HasGuard(ci.(ssa.Instruction), eqs("("+loopVar+" <= a1)"))
+		}
+		c.R.Ob(rule, "SetRound:all-rounds-up-to-target", ok, c.P.Pos(f.F.Pos()), fname(f), "addRound must run for r = hvs.round+1 .. round (a round jump otherwise leaves the skipped rounds, the current one included, without vote sets: their votes go through the two-per-peer catch-up path and are dropped)")
 	}
 }
